@@ -221,6 +221,10 @@ class Unsigned64Type(BaseDataType):
 
             self._data = data
 
+        else:
+            raise DataTypeError("Unsigned64Type MUST have data argument "\
+                                "of 'int' or 'bytes'")
+
 
 class GroupedType(BaseDataType):
     mandatory = {}
